@@ -2,8 +2,8 @@
 EXTENDS Window, Json
 \* Behaviour emission for spec -> implementation replay: one JSON line per
 \* complete stream (every prefix's firings are contained in it).
-Emit == (Len(stream) = MaxLen) =>
-          PrintT(<<"REPLAY", ToJson([w |-> width, s |-> slide, nonempty |-> ne, stream |-> stream,
+Emit == (Len(stream) = MaxLen /\ flushed # <<>>) =>
+          PrintT(<<"REPLAY", ToJson([w |-> width, s |-> slide, nonempty |-> ne, stream |-> stream, flush |-> flushed[1],
                      fired |-> [k \in 1..Len(fired) |->
                         [idx |-> fired[k].idx, ts |-> fired[k].ts, close |-> fired[k].close,
                          items |-> fired[k].items]]])>>)
